@@ -133,6 +133,21 @@ class TokenRef:
                 bonds.append((min(idx_of[i], idx_of[j]), max(idx_of[i], idx_of[j]), BOND_ORDER.get(b.GetBondType(), b.GetBondTypeAsDouble())))
         self.bonds = sorted(bonds)
         self.mass = sum(_heavy_mass(mol.GetAtomWithIdx(g)) for g in real)
+        # tokens whose aromaticity / bond orders change when the descriptors are cut off are chemically degenerate
+        # (e.g. a descriptor on an already fully substituted aromatic atom): outside every quantifier
+        self.degenerate = False
+        try:
+            erased = re.sub(r"^\[\d+\*\][-=#:]?", "", dummy_smiles)
+            erased = re.sub(r"[-=#:]?\[\d+\*\]", "", erased)
+            while "()" in erased:
+                erased = erased.replace("()", "")
+            m2 = Chem.MolFromSmiles(erased, params)
+            atoms2 = [(a.GetAtomicNum(), a.GetFormalCharge(), a.GetIsotope(), a.GetIsAromatic()) for a in m2.GetAtoms()]
+            bonds2 = sorted((min(b.GetBeginAtomIdx(), b.GetEndAtomIdx()), max(b.GetBeginAtomIdx(), b.GetEndAtomIdx()), BOND_ORDER.get(b.GetBondType(), b.GetBondTypeAsDouble())) for b in m2.GetBonds())
+            if atoms2 != self.atoms or bonds2 != self.bonds:
+                self.degenerate = True
+        except Exception:  # noqa
+            self.degenerate = True
         # descriptors that cannot be told apart (same atom, symbol, id, order, weight, transitions) share a class
         sig = [(d.atom, d.symbol, d.id, d.order, round(d.weight, 9), None if d.transitions is None else tuple(d.transitions)) for d in descs]
         self.desc_class = [sig.index(x) for x in sig]
